@@ -208,7 +208,7 @@ impl Prop for C11 {
                 if f1 != f2 || (max2 as i64 - w1 as i64).abs() <= 2 {
                     out.nontrivial.push(rng::hash_combine(rng::hash_combine(rng::hash_str(&w.text), ((w1 as u64) << 32) | w2 as u64), rng::hash_str(&base.short())));
                 }
-                if k == 0 && idx < 2 {
+                if out.sample.is_none() && idx < 32 {
                     out.sample = Some(json!({"source": w.name, "W1": w1, "W2": w2, "widest at W2": max2, "lines at W1": n1, "lines at W2": n2, "input": short(&w.text, 200)}));
                 }
             }
